@@ -298,6 +298,8 @@ def axioms(names):
         "atan_sign": [z3.ForAll([x], z3.And(z3.Implies(x >= 0, u_atan(x) >= 0), z3.Implies(x <= 0, u_atan(x) <= 0),
                                             z3.Implies(x == 0, u_atan(x) == 0)),
                                 patterns=[u_atan(x)])],
+        "atan_sign_strict": [z3.ForAll([x], z3.And(z3.Implies(x > 0, u_atan(x) > 0), z3.Implies(x < 0, u_atan(x) < 0),
+                                                   z3.Implies(x == 0, u_atan(x) == 0)), patterns=[u_atan(x)])],
         "atan_odd": [z3.ForAll([x], u_atan(-x) == -u_atan(x), patterns=[u_atan(-x)])],
         "atan_mono": [z3.ForAll([x, y], z3.Implies(x <= y, u_atan(x) <= u_atan(y)),
                                 patterns=[z3.MultiPattern(u_atan(x), u_atan(y))])],
